@@ -91,6 +91,9 @@ def fenced_case(rng):
     if closed:
         lines.append(ind + c * (n + rng.randint(0, 2)))
     doc = "\n".join(wrap(lines, container)) + "\n"
+    if container == "top" and k < 2 and rng.random() < 0.45:
+        # directly (no blank line) after a block that a fence interrupts: the block ends, the fenced block is a sibling at top level
+        doc = rng.choice(["para", "- item", "1. item", "* a\n* b", "+ x\n  y", "> quote", "# head", "- a\n\n  b", "10) item", "- > q", "para\nmore"]) + "\n" + doc
     expected = "".join(l + "\n" for l in body)
     return {"kind": "fenced", "container": container, "doc": doc, "expected": expected, "info": info, "closed": closed, "body": body, "directives": info.startswith("{") or rng.random() < 0.15}
 
